@@ -21,6 +21,10 @@
 (*    "ast" = U+2C65 a-stroke  (lower, 3 bytes) <-> "AST" U+023A (2 bytes)  *)
 (*    "kel" = U+212A Kelvin    (upper, 3 bytes)  -> lower "k" (1 byte)      *)
 (*  Up/Lo are therefore not inverse of each other: Lo(Up("dli")) = "i".    *)
+(*  a letter with THREE cases (upper-casing is not title-casing):          *)
+(*    "dz" = U+01C6 (lower)   "Dz" = U+01C5 (TITLE case: a letter that is  *)
+(*    neither lower nor upper)   "DZ" = U+01C4 (upper); 2 bytes each       *)
+(*    "cm" = U+0301 combining acute accent (a mark, not a letter; 2 bytes) *)
 (* The alphabet separates byte-indexing from rune-indexing: the byte model *)
 (* (Bytes/Decode/Tok below) gives every token its byte length, and a lone  *)
 (* byte of a multi-byte token is not a token ("bad").                      *)
@@ -58,6 +62,7 @@ Q(v) == [t |-> "q", v |-> v]       \* float64 given in quarters (v/4)
 P(v) == [t |-> "p", v |-> v]       \* abstract path for readFile: "" | "file" | "dir" | "missing"
 Undef == [t |-> "undef"]           \* outside the domain: an error or any value, never a crash
 Err   == [t |-> "err"]             \* a template error is the documented outcome
+OneOf(vs) == [t |-> "oneof", v |-> vs]   \* the documentation leaves it open: any of these strings
 Std   == [t |-> "std"]             \* decided by the Go namesake alone (harness computes it)
 Shape == [t |-> "shape"]           \* only shape invariants (ShapeOK) and totality
 
@@ -70,23 +75,25 @@ UpperA == {UpperSeq[i] : i \in 1..26}
 Digits == {"0","1","2","3","4","5","6","7","8","9"}
 Pos(seq, x) == CHOOSE i \in DOMAIN seq : seq[i] = x
 
-IsLowerRune(t) == t \in LowerA \cup {"ee", "dli", "ls", "tua", "ast"}
-IsUpperRune(t) == t \in UpperA \cup {"EE", "TUA", "AST", "kel"}
-IsLetterRune(t) == IsLowerRune(t) \/ IsUpperRune(t) \/ t = "zh"
+IsLowerRune(t) == t \in LowerA \cup {"ee", "dli", "ls", "tua", "ast", "dz"}
+IsUpperRune(t) == t \in UpperA \cup {"EE", "TUA", "AST", "kel", "DZ"}
+IsLetterRune(t) == IsLowerRune(t) \/ IsUpperRune(t) \/ t \in {"zh", "Dz"}
 IsSpaceRune(t) == t \in {" ", "tab", "nl"}
 IsInvalid(t) == t = "xff"
 IsSep(t) == t \in {"_", "-", " ", "tab", "nl"}   \* word separators of the case converters (incl. white space)
 IsWordRune(t) == IsLetterRune(t) \/ t \in Digits \/ IsSep(t)
-ByteLen(t) == CASE t \in {"ee", "EE", "dli", "ls", "tua", "AST"} -> 2
+ByteLen(t) == CASE t \in {"ee", "EE", "dli", "ls", "tua", "AST", "dz", "Dz", "DZ", "cm"} -> 2
                 [] t \in {"zh", "fffd", "TUA", "ast", "kel"} -> 3
                 [] OTHER -> 1
 
 \* unicode.ToUpper / unicode.ToLower
 Up(t) == CASE t \in LowerA -> UpperSeq[Pos(LowerSeq, t)]
            [] t = "ee" -> "EE" [] t = "dli" -> "I" [] t = "ls" -> "S" [] t = "tua" -> "TUA" [] t = "ast" -> "AST"
+           [] t \in {"dz", "Dz"} -> "DZ"
            [] OTHER -> t
 Lo(t) == CASE t \in UpperA -> LowerSeq[Pos(UpperSeq, t)]
            [] t = "EE" -> "ee" [] t = "TUA" -> "tua" [] t = "AST" -> "ast" [] t = "kel" -> "k"
+           [] t \in {"DZ", "Dz"} -> "dz"
            [] OTHER -> t
 \* strings.ToUpper/ToLower go through strings.Map: an invalid byte comes out as U+FFFD
 UpS(t) == IF IsInvalid(t) THEN "fffd" ELSE Up(t)
@@ -193,6 +200,12 @@ Exported(s) == IF s = <<>> THEN <<>>
 FirstIsLower(s) == s # <<>> /\ IsLowerRune(Head(s))
 FirstUpper(s) == IF s = <<>> THEN <<>> ELSE <<Up(Head(s))>> \o Tail(s)
 FirstLower(s) == IF s = <<>> THEN <<>> ELSE <<Lo(Head(s))>> \o Tail(s)
+\* A TITLE-case first letter (cased, but neither lower nor upper): "upper-cased" / "lower-cased" may mean
+\* mapped (unicode.ToUpper, mockery's Exported) or left alone (xstrings maps only IsLower/IsUpper runes).
+TitleFirst(s) == s # <<>> /\ IsLetterRune(Head(s)) /\ ~IsLowerRune(Head(s)) /\ ~IsUpperRune(Head(s)) /\ Up(Head(s)) # Head(s)
+CaseFirst(F(_), s) == IF TitleFirst(s) THEN OneOf({s, F(s)}) ELSE S(F(s))
+\* does value r satisfy expectation e?
+Sat(r, e) == IF e.t = "oneof" THEN r.t = "s" /\ \E x \in e.v : r.v = x ELSE r = e
 
 \* Go integer division truncates towards zero; the remainder has the sign of the dividend
 Abs(a) == IF a < 0 THEN -a ELSE a
@@ -309,10 +322,10 @@ Expect(f, a) ==
     [] Table[f].oracle = "spec+std" ->
          \* "equal their Go standard-library namesakes with the subject string as last argument"
          StdCall(f, IF Table[f].rot THEN <<Last(x)>> \o Front(x) ELSE x)
-    [] f = "exported"     -> S(Exported(x[1]))
+    [] f = "exported"     -> CaseFirst(Exported, x[1])
     [] f = "firstIsLower" -> B(FirstIsLower(x[1]))
-    [] f = "firstUpper"   -> S(FirstUpper(x[1]))
-    [] f = "firstLower"   -> S(FirstLower(x[1]))
+    [] f = "firstUpper"   -> CaseFirst(FirstUpper, x[1])
+    [] f = "firstLower"   -> CaseFirst(FirstLower, x[1])
     [] f = "readFile"     -> CReadFile(x[1])
     [] f = "add"  -> CAdd(x)
     [] f = "sub"  -> CSub(x)
@@ -353,6 +366,7 @@ Accepts(f, a, r) ==
     [] e.t = "std"   -> TRUE                 \* decided by the harness against the namesake
     [] e.t = "shape" -> r.t # "err" /\ ShapeOK(f, a, r)
     [] e.t = "err"   -> r.t = "err"
+    [] e.t = "oneof" -> r.t = "s" /\ \E x \in e.v : r.v = x
     [] OTHER         -> r.t = e.t /\ r.v = e.v
 
 ---------------------------------------------------------------------------
@@ -473,10 +487,13 @@ Next == Call
 
 TypeOK == fn \in Documented /\ phase \in {"call", "done"}
 \* Impl => Contract on every enumerated tuple
-ImplMatchesContract == phase = "done" => reply = Expect(fn, args)
+ImplMatchesContract == phase = "done" => Sat(reply, Expect(fn, args))
 ASSUME TableOK == SubjectLast /\ Cardinality(Documented) = 44
 
-JArg(a) == IF a.t \in {"s"} THEN [t |-> a.t, v |-> Norm(a.v)]
+RECURSIVE SetToSeq(_)
+SetToSeq(X) == IF X = {} THEN <<>> ELSE LET x == CHOOSE x \in X : TRUE IN <<Norm(x)>> \o SetToSeq(X \ {x})
+JArg(a) == IF a.t = "oneof" THEN [t |-> "oneof", v |-> SetToSeq(a.v)] ELSE
+           IF a.t \in {"s"} THEN [t |-> a.t, v |-> Norm(a.v)]
            ELSE IF a.t = "l" THEN [t |-> "l", v |-> [i \in 1..Len(a.v) |-> Norm(a.v[i])]]
            ELSE a
 Emit == phase = "done" =>
